@@ -898,6 +898,11 @@ func (p *prop) configJSON(c *acase) []byte {
 	var base map[string]any
 	json.Unmarshal([]byte(baseCfg), &base)
 	base["admin"] = admin
+	if !c.remote && c.listen == "" && c.originsNil && !c.eo {
+		// everything is the default: leave the whole "admin" object out, so that the
+		// `cfg.Admin == nil` branch of replaceLocalAdminServer supplies it
+		delete(base, "admin")
+	}
 	b, err := json.Marshal(base)
 	if err != nil {
 		panic(err)
